@@ -352,6 +352,9 @@ bloc::Value * SQLITE3Plugin::executeMethod(
 
 int SQLITE3::Handle::open(const std::string& path)
 {
+  /* release the connection and the statement the handle still holds */
+  if (_db)
+    close();
   int r = sqlite3_open(path.c_str(), &_db);
   if (r != SQLITE_OK)
     return 0;
@@ -363,6 +366,8 @@ int SQLITE3::Handle::close()
 {
   if (_stmt)
     sqlite3_finalize(_stmt);
+  _stmt = nullptr;
+  _stmt_status = STMT_NEW;
   int r = sqlite3_close(_db);
   _db = nullptr;
   _path.clear();
